@@ -434,6 +434,10 @@ def render_program(atoms, no_decomp, profile, steps, seed=0, rules=None, head=No
     lines.append("(ruleset filt)")
     for rs in sorted(rules):
         lines.append("(ruleset %s)" % rs)
+    if any(st["ruleset"] == "all" for st in steps):
+        # nested, overlapping combined rulesets: `all` reaches the rules of `main` twice
+        lines.append("(unstable-combined-ruleset AB main other)")
+        lines.append("(unstable-combined-ruleset all main AB)")
     pname, default, over, dist = profile_parts(profile)
     seeds = []
     for name, ar in sorted(sig.items()):
@@ -453,7 +457,7 @@ def render_program(atoms, no_decomp, profile, steps, seed=0, rules=None, head=No
         lines.append("(rule (%s) ((OutC %s)) :ruleset %s%s)" % (catoms.text, " ".join(chead), crs, " :no-decomp" if no_decomp else ""))
     for k, st in enumerate(steps):
         if st.get("aux"):
-            lines.append("(rule ((Trig %d)) (%s) :ruleset %s)" % (k, " ".join(st["aux"]), st["ruleset"]))
+            lines.append("(rule ((Trig %d)) (%s) :ruleset %s)" % (k, " ".join(st["aux"]), "main" if st["ruleset"] == "all" else st["ruleset"]))
     for k, st in enumerate(steps):
         for cmd in st.get("pre", []):
             lines.append(cmd)
